@@ -109,4 +109,10 @@ TEXT = {
   "note": "tolerance 2e-4; all-zero rules excluded",
   "technique": "TLA+ model checking (TLC) of the normalisation + replay of weighted hierarchies and exhaustive scripted draws of the weight-aware choosers, judged by TLC",
  },
+ "C09": {
+  "level": "GEHeap states the discipline (operators allocate, existing objects are only ever completed: labels once, fitness once) and TLC checks the action property HeapAppendOnly over all allocation / labelling / caching sequences on a 4-object heap (a write-in-place variant must fail); for every representation, chains of real mutate / crossover calls and ten (forty) generations of real step compositions are recorded as structural snapshots of all inputs and of every object ever seen, and TLC checks each re-observed object against its registered snapshot (program, node metadata incl. synthesis context, genes, cached fitness, phenotype cache).",
+  "ref": "DESIGN.md section 4 C09",
+  "note": "a late write is localised to a window of 10 operations",
+  "technique": "TLA+ action property (TLC) on an object heap + trace validation of structural snapshots over the whole object registry",
+ },
 }
